@@ -172,6 +172,8 @@ def spec_token(op):
         f += ['ons=' + op['ons'], 'o=' + ptok(op['old']), 'nns=' + op['nns'], 'p=' + ptok(op['new'])]
         if op.get('rr') is not None:
             f.append('r=' + btok(op['rr']))
+    elif o == 'reopen':
+        return 'reopen'
     else:
         return None
     return ','.join(f)
